@@ -16,6 +16,21 @@ CHECKS = {
          "For each generated history (reorganisations of depth 1..4 quick / 1..8 thorough, branch switches, extensions, orphans, duplicates) the number W of repository write calls of the uninterrupted run is measured and the history is re-executed W x {kill-before, kill-after, error-instead} times on the real SQLite stack with exactly one fault, followed by database.Init on the same file and two redeliveries. Complete over the write boundaries of the histories generated; the histories themselves are sampled.",
          "Trusted: a write boundary = one call of repository.Headers.AddHeaderToDatabase/UpdateState (each is one committed SQL transaction, validated by the real-SIGKILL sample); ingestion stops at an injected write error (weakest reading); SQLite only.",
          "DESIGN.md §5 C05"),
+ "C02": ("exploration",
+         "runtime monitoring: differential oracle (reference-model verdict function) on request lists sent to the real POST /chain/merkleroot/verify handler and service over the real SQLite stack, at every reorganisation point of seeded histories",
+         "Verdicts, block hashes, per-item order/length and the aggregate are compared with the statement's three-way rule for thousands of request lists on stores with reorganisations, stale blocks sharing heights with longest blocks, orphans and duplicate merkle roots, for excess in {0,1,6,100,MaxInt32}; the same lists are re-derived after every later reorganisation so demoted roots must stop being CONFIRMED. Sampled, not exhaustive.",
+         "Trusted: reference model; lower-case hex roots only; excess <= MaxInt32; SQLite only.",
+         "DESIGN.md §5 C02"),
+ "C03": ("exploration",
+         "runtime monitoring: independent hash/height/work arithmetic as oracle over the real stack with field-extreme generators; immutability monitor over row-level snapshots after every submission and across restarts; service and HTTP JSON round trips",
+         "Every stored header of every generated history (int32/uint32 corners, timestamps over the whole uint32 range, all bits classes) is compared column by column with independently derived values, re-read through the service and both HTTP endpoints, and tracked by a monitor that fails if any non-state column of any earlier row ever changes or a row vanishes, including across database.Init restarts.",
+         "Trusted: refmodel arithmetic (cross-checked exhaustively by C19); SQLite only.",
+         "DESIGN.md §5 C03"),
+ "C04": ("exploration",
+         "runtime monitoring: reference-model query oracle against the real gin handlers on the real SQLite stack; all queries on small stored trees, sampled on large ones; table digest compared around reads",
+         "For each stored tree every read endpoint is queried (exhaustively for trees of <=12 headers: every hash, every ordered ancestors pair, every multiset <=3 for common ancestor, every height window) and compared with what the stored tree implies under the weakest reading of the statement; the headers table digest must not change across reads.",
+         "Trusted: reference model; queries crossing a late-stored parent link are skipped; degenerate arguments (empty lists, genesis) are left to C16; SQLite only.",
+         "DESIGN.md §5 C04"),
 }
 
 NOT_YET = "check not built yet in this session (work in progress; design in DESIGN.md §5)"
